@@ -429,3 +429,14 @@ Proof.
     rewrite Hl. cbn [fst st_fs]. exists (mkfile (f_data f0) (N.ldiff mode 73)).
     rewrite lookup_set_eq. auto.
 Qed.
+
+Definition unguarded_no_file_disappears : Prop :=
+  forall (s : state) (prog : list action) (t : list op),
+    crash_of (prog_ops prog) t -> no_file_lost (st_fs s) (st_fs (exec t s)).
+
+Lemma unguarded_no_file_disappears_refuted : ~ unguarded_no_file_disappears.
+Proof.
+  intro H. specialize (H ug_state ug_prog (prog_ops ug_prog) (crash_of_full _)).
+  destruct (H (tmp_name ug_a) (mkfile [112; 114; 101] 420) eq_refl) as [f1 Hl].
+  rewrite unguarded_file_lost in Hl. discriminate.
+Qed.
